@@ -383,8 +383,22 @@ namespace nrf52_details
 
     bluetoe::details::uint128_t security_tool_box::create_passkey()
     {
+        // a passkey is a value between 000000 and 999999; draw 20 bits until the value is within that range
+        // to get every value with the very same probability
+        static constexpr std::uint32_t passkey_limit = 1000000;
+        std::uint32_t passkey = passkey_limit;
+
+        while ( passkey >= passkey_limit )
+        {
+            passkey = static_cast< std::uint32_t >( random_number8() )
+                    | ( static_cast< std::uint32_t >( random_number8() ) << 8 )
+                    | ( static_cast< std::uint32_t >( random_number8() & 0x0f ) << 16 );
+        }
+
         const bluetoe::details::uint128_t result{{
-            random_number8(), random_number8(), random_number8()
+            static_cast< std::uint8_t >( passkey ),
+            static_cast< std::uint8_t >( passkey >> 8 ),
+            static_cast< std::uint8_t >( passkey >> 16 )
         }};
 
         return result;
